@@ -34,7 +34,7 @@ FLAGS = ["--big-stack", "--code", "--credits", "--data", "--help", "--init", "--
          "--quiet", "--stdout", "--throttle", "--verbose", "--version", "--warn-octal-off", "--warn-return-off", "assemble",
          "debug", "disassemble", "preprocess", "-h", "-v", "-q"]
 ODD = ["0", "000", "--throttle=0", "--throttle=00", "--", "-", "--throttle=5", "--throttle=", "--throttle=abc", "--throttle=-1", "--throttle5", "--init=r1=5", "--init=",
-       "--init=zz", "--init=r0=zzz", "--init=R0=70000", "--init=r2=7, r0=", "--init=r00=-40000", "--init=r0=1", "--init==5", "--init=r1=1, =2", "--init=r=5", "--init=R=", "--init=,", "--initx", "--bogus", "-x", "-hq", "--HELP", "5", "abc", "r1=5", "r1=5,r2=0x10", "R0=1", "r1=70000", "",
+       "--init=zz", "--initx", "--initialize", "--init5", "--throttle5", "--quietly", "-qq", "--init=r0=zzz", "--init=R0=70000", "--init=r2=7, r0=", "--init=r00=-40000", "--init=r0=1", "--init==5", "--init=r1=1, =2", "--init=r=5", "--init=R=", "--init=,", "--initx", "--bogus", "-x", "-hq", "--HELP", "5", "abc", "r1=5", "r1=5,r2=0x10", "R0=1", "r1=70000", "",
        " ", "--throttle=007", "--init=r1=5 r2=6", "p.hera", "q.hera", "--no-color=1", "assemble=1"]
 
 
@@ -141,6 +141,43 @@ def init_ok(s):
         if not -32768 <= val < 65536:
             return False
     return True
+
+
+SHORT = {"-h": "--help", "-v": "--version", "-q": "--quiet"}
+
+
+def unknown_flag(argv):
+    """The first argument that looks like a flag (starts with `-`, more than one character, before a bare `--`) and is
+    none of the documented flags, sub-commands or `--throttle=` / `--init=` forms; None if there is none.  Written
+    from the documentation, not from parse_args."""
+    i = 0
+    while i < len(argv):
+        a = argv[i]
+        l = SHORT.get(a, a)
+        if l == "--":
+            return None
+        if l in FLAGS:
+            i += 2 if l in ("--throttle", "--init") else 1
+            continue
+        if l.startswith("--throttle=") or l.startswith("--init="):
+            i += 1
+            continue
+        if l.startswith("-") and len(l) > 1:
+            return a
+        i += 1
+    return None
+
+
+def known_replays(ctx, findings):
+    """Findings recorded with an argument vector that must be a usage error."""
+    out = []
+    for e in findings:
+        if "argv" not in e or e["id"] not in ("D42", "D54"):
+            continue
+        r = real_parse(e["argv"])
+        bad = None if r["kind"] == "usage" else "hera %s is %s, a usage error is documented" % (" ".join(e["argv"]), r["kind"])
+        out.append((e, bad is not None, bad))
+    return out
 
 
 def init_values(argv):
@@ -327,6 +364,10 @@ def correspondence(ctx, model_available=True):
         elif r["kind"] == "run" and documented_incompatibility(a):
             spec_failures.append({"what": "hera %s is accepted (mode %r) although %s does not belong to that mode: a usage error "
                                           "(status 1) is documented" % (" ".join(a), r["mode"], documented_incompatibility(a)), "argv": a})
+        elif r["kind"] != "usage" and unknown_flag(a) is not None:
+            spec_failures.append({"what": "hera %s is %s although %r is not a flag of the tool: a usage error (status 1) is documented"
+                                          % (" ".join(x[:40] for x in a), "accepted" if r["kind"] == "run" else r["kind"], unknown_flag(a)[:40]),
+                                  "argv": [x[:60] for x in a]})
         elif r["kind"] == "run" and init_values(a) and not init_ok(init_values(a)[-1]):
             # (a later --init replaces an earlier one: the value in force is the last)
             spec_failures.append({"what": "hera %s is accepted although its --init value %r is ill-formed or out of range: a usage "
